@@ -1,6 +1,7 @@
 INFO = {
     "level": "proof",
     "level_text": "The cost the dispatcher minimises is the grid distance: every find_assignment call in the dispatcher passes assignment_ops.h3_distance_cost (call-site rule on the real AST), whose contract is h3.h3_distance of the two cells. The two filters of the built-in trip dispatcher are verified as closures captured from the real enclosing functions (two levels of nesting), for all states: a request is offered to the matching iff it has no dispatched vehicle and (when matching per fleet) grants access to that fleet; a vehicle is offered only if its activity's name is in the configured dispatchable states, its driver is on shift, it passes the fleet-membership test and its remaining range exceeds the thresholds. AssignmentSolution.add and the request sort key (-value, id) (C01) are under contract. find_assignment itself is under contract (numpy table as a functional 2-D array of the executor, two nested loop invariants, one fold invariant): for all assignee / target tuples and every finite cost function, the table handed to scipy holds exactly cost_fn(assignees[i], targets[j]) in every cell (no cell is left at, or replaced by, the infinity placeholder), the pairs returned are scipy's (row, column) pairs mapped back to the ids of those very entities, their number is min(n, m) and solution_cost is the sum of the table cells of the pairs. Additionally a bounded stand-in (labelled bounded, not counted among the discharged obligations) runs the real function on every cost table of shape up to 3x3 over a small set of cost values and compares with brute force.",
+    "technique": "contract-based deductive verification: VCs generated from the real Python AST (pyvc), discharged by z3/cvc5; one call-site rule on the real AST (the dispatcher's cost function is h3_distance_cost; labelled ast-rule); bounded stand-in for scipy's optimality (labelled bounded, not counted)",
     "level_note": "minimality of scipy's assignment is cross-checked only by the bounded stand-in (every table up to 3x3 against brute force; labelled bounded); distinctness of paired vehicles/requests, size = min of the two counts and minimality of the total grid distance are the assumed contract of scipy.optimize.linear_sum_assignment; costs are assumed finite (the dispatcher's cost is the h3 grid distance); float('inf') / float('-inf') are two constants that are only compared; numpy stores into the local table are modelled as functional updates (table[i][j] = v, table[table == x] = v).",
     "trusted_base": ["scipy.optimize.linear_sum_assignment returns a minimum-cost assignment of size min(n, m) with distinct rows and columns (assumed library contract; minimality is not re-proved)", "numpy array semantics of np.full, element store, masked store, element read (modelled as a functional 2-D array)"],
     "assumptions": [],
